@@ -95,6 +95,10 @@ class C09(Check):
                 if inb.size - z.size < k + 1:
                     zero[z] = False
             w[zero] = 0.0
+            # the optimum does not depend on the units of the weights: a third of the cases carry inverse variances of
+            # counts (1e-12) to micro-flux units (1e12)
+            if rng.random() < 0.35:
+                w = w * 10 ** rng.uniform(-12, 12)
             scale = 10 ** rng.uniform(-3, 3)
             y = scale * (np.sin(x * rng.uniform(0.3, 2)) + g.normal(0, 0.1, n))
             return {'kind': cls, 'x': x.tolist(), 'y': y.tolist(), 'w': w.tolist(), 'nord': k, 'bkpt': edges.tolist(),
@@ -106,6 +110,8 @@ class C09(Check):
             for d in range(bw):
                 Bm += np.diag(g.normal(size=n - d), -d)
             A = Bm @ Bm.T + 10 ** rng.uniform(-3, 0) * np.eye(n)      # SPD, bandwidth bw
+            if rng.random() < 0.35:
+                A = A * 10 ** rng.uniform(-12, 12)                    # positive definiteness has no absolute scale
             mode = 'spd'
             if cls == 'cholesky_bad':
                 mode = rng.choice(['neg_diag', 'zero_diag', 'indefinite', 'nan', 'inf', 'nan_offdiag'])
@@ -144,7 +150,7 @@ class C09(Check):
         nbk = rng.randint(2, 25) if mode != 'few_bkpts' else rng.randint(2, 3)
         n = rng.randint(30, 200)
         x = np.sort(g.uniform(0, 10, n))
-        w = np.ones(n) * 10 ** rng.uniform(-2, 2)
+        w = np.ones(n) * 10 ** (rng.uniform(-2, 2) if rng.random() < 0.7 else rng.uniform(-12, 12))
         if mode == 'gap':
             a = rng.uniform(0.5, 7)
             width = rng.uniform(1.0, 3.0) * 10.0 / max(nbk - 1, 1) * rng.choice([1, 2, 3])
